@@ -353,6 +353,8 @@ theorem list_ld (cfg : Cfg) (gas : Nat) (hT : TokLd P cfg gas) (hL : ListLd P cf
     exact parseMarker_P P hP l.s m hl2
   simp only [readList] at h
   split at h
+  · exact list_ld_stop P st acc _ r hacc h
+  split at h
   · cases h
   · rename_i il hil
     have hnp := itemLines_next_marker cfg fw nm il hil
@@ -385,10 +387,8 @@ theorem list_ld (cfg : Cfg) (gas : Nat) (hT : TokLd P cfg gas) (hL : ListLd P cf
       have hacc' : LdItems P (item :: acc) := ⟨hkw, hacc⟩
       split at h
       · split at h
-        · exact list_ld_stop P st' acc _ r hacc h
-        · split at h
-          · exact list_ld_stop P st' _ _ r hacc' h
-          · exact hL il.fw st' _ _ _ r h hnp hacc'
+        · exact list_ld_stop P st' _ _ r hacc' h
+        · exact hL il.fw st' _ _ _ r h hnp hacc'
       · split at h
         · exact list_ld_stop P st' _ _ r hacc' h
         · exact hL il.fw st' _ _ _ r h hnp hacc'
